@@ -2,7 +2,8 @@
 
 Decided: forward/backward evolution coefficients are -/+ u*dt/2 (T1), 2nd/4th-order sub-step durations and mid-points
 are exact polynomial identities and the composition constant is 1/(4-4^(1/3)) (T2), snapshot bookkeeping (T3), the
-Krylov-dimension memo is per site (T4), sweep ordering as for DMRG (O1, O2).
+Krylov-dimension memo is per site (T4), expmv combines the orthonormal basis and Heff is linear in its input (T5),
+sweep ordering as for DMRG (O1, O2).
 Not decided: conservation to solver tolerance, agreement with expm (numerical).
 """
 from __future__ import annotations
@@ -38,6 +39,13 @@ def run(chk):
     chk.extra["sweep_body_paths"] = paths
     e7.tdvp_composition(chk, prog.func(TDVP, "tdvp_"))
     e7.krylov_memo_keys(chk, prog)
+    chk.rule("T5", "expmv returns a combination of the orthonormal Krylov basis started from v/|v|; effective operators are linear", floor=20)
+    e7.check_krylov_combination(chk, "T5", prog.func("yastn.krylov._krylov", "expmv"))
+    ENVM = "yastn.tn.mps._env"
+    for ci in prog.module(ENVM).classes.values():
+        for name, f in ci.methods.items():
+            if f.cls is ci and name in ("Heff0", "Heff1", "Heff2"):
+                e7.check_conj_typing(chk, "T5", f, f.params[1:2])
 
 
 MUTANTS = [
@@ -50,6 +58,7 @@ MUTANTS = [
     ("t advanced by dt", "yastn/tn/mps/_tdvp.py", "            t = t + ds\n", "            t = t + dt\n", "T3"),
     ("constant truncated", "yastn/tn/mps/_tdvp.py", "s2 = 0.41449077179437573714", "s2 = 0.4144907717", "T2"),
     ("memo key mismatch", "yastn/tn/mps/_tdvp.py", "    env._temp['expmv_ncv'][ibd] = info['ncv']", "    env._temp['expmv_ncv'][bd] = info['ncv']", "T4"),
+    ("expmv combines unnormalised start", "yastn/krylov/_krylov.py", "            v = V[0].add(*V[1:], amplitudes=F, **kwargs)", "            v = v.add(*V[1:], amplitudes=F, **kwargs)", "T5"),
     ("delete clear_site_ 2site", "yastn/tn/mps/_tdvp.py", "            env.clear_site_(n, n + 1)\n            env.update_env_(n + 1 - dn, to=to)", "            env.update_env_(n + 1 - dn, to=to)", "O2"),
     ("12site refresh wrong site", "yastn/tn/mps/_tdvp.py", "                env.update_env_(n + 1 - 2 * dn, to=to)", "                env.update_env_(n + 1 - dn, to=to)", "O1"),
 ]
